@@ -6,14 +6,11 @@
    The random draw is universally quantified: k ranges over all values _randbelow(n) can
    return, num/den over all rationals in [0,1) random() can return.
 
-   Full statement for datetime_between (FALSE for the code as it is, see the _refuted lemmas):
-     forall bounds s e (as written, with offsets and fractional seconds) and draws,
-       instant s <= instant e -> the result v satisfies instant s <= v <= instant e.
-   Proved instead: C11_datetime_between_as_coded (what the code guarantees for all inputs) and
-   C11_datetime_between_bounds_partial (the property on offset-free bounds whose start is a
-   whole second and whose end lies in a later second).
-   Full statement for random_choice over `choice` items (FALSE when a probability is 0, see
-   C11_choice_items_zero_probability_refuted); proved: C11_choice_items_partial. *)
+   The defects K4 / K10 / K11 / K12 found by the first version of this check were repaired in
+   /repo (5f128ae, 9e24eea, d67b12a); the model transcribes the repaired code, the former
+   `_partial` statements are now proved at full strength and the former `_refuted` witnesses
+   are kept as regression lemmas.  One statement is still FALSE for the code as it is:
+   datetime_between with `timezone: False` (C11_timezone_false_refuted, finding C11-K13). *)
 From Coq Require Import ZArith List.
 From SFV Require Import Base RandFuncs.
 From SFV.P Require Import RandFuncsP.
@@ -131,26 +128,23 @@ Theorem C11_dict_form :
 Proof. exact random_choice_dict. Qed.
 Print Assumptions C11_dict_form.
 
-(* choice-item form, restricted to probabilities that are present and > 0 *)
-Theorem C11_choice_items_partial :
+(* choice-item form at full strength: probabilities present, >= 0, not all 0: the pick is a
+   listed item whose probability is > 0 -- an item with probability 0 is never picked *)
+Theorem C11_choice_items :
   forall items num den,
-  Forall (fun it => exists p, fst it = Some p /\ 0 < p) items -> items <> [] -> 0 <= num < den ->
+  Forall (fun it => exists p, fst it = Some p /\ 0 <= p) items ->
+  0 < zsum (map (fun it => match fst it with Some p => p | None => 0 end) items) ->
+  0 <= num < den ->
   exists o p, random_choice (RCChoices items) (Some num) den = Ok o /\ In (Some p, o) items /\ 0 < p.
-Proof. exact random_choice_choices_partial. Qed.
-Print Assumptions C11_choice_items_partial.
+Proof. exact random_choice_choices. Qed.
+Print Assumptions C11_choice_items.
 
-(* KNOWN FINDING C11-K12: a `choice` item with probability 0 makes the call fail for every draw
-   (the property wants: never pick that item) *)
-Theorem C11_choice_items_zero_probability_refuted :
-  (forall items d den, In (Some 0) (map fst items) ->
-                       random_choice (RCChoices items) d den = Err (Internal "TypeError")) /\
-  (forall d den, exists e, random_choice (RCChoices [(Some 0, 1); (Some 200, 2)]) d den = Err e).
-Proof.
-  split.
-  - exact random_choice_zero_probability_fails.
-  - exact refuted_zero_probability.
-Qed.
-Print Assumptions C11_choice_items_zero_probability_refuted.
+(* regression for the repaired defect K12 (probability 0 made the call fail) *)
+Example C11_choice_items_zero_probability_regression :
+  random_choice (RCChoices [(Some 0, 1); (Some 200, 2)]) (Some 0) 1024 = Ok 2 /\
+  random_choice (RCChoices [(Some 0, 1); (Some 200, 2)]) (Some 1023) 1024 = Ok 2.
+Proof. exact regression_zero_probability. Qed.
+Print Assumptions C11_choice_items_zero_probability_regression.
 
 (* plain list: only listed options, each of them reachable; empty list: error *)
 Theorem C11_only_listed :
@@ -205,84 +199,92 @@ Print Assumptions C11_resolve_date_meaning.
 
 (* ------------------------------------------------------------------ datetime_between *)
 
-(* What the code guarantees for ALL inputs: ordering check on the wall-clock readings (offsets
-   dropped), result within [start truncated to a second, max(end second, start second + 1)]. *)
-Theorem C11_datetime_between_as_coded :
-  forall c s e tz num den s' e',
-  datetime_fn c s = Ok s' -> datetime_fn c e = Ok e' -> 0 <= num < den ->
-  (instant e' < instant s' -> forall d, exists m, datetime_between c s e tz d den = Err (DGE m)) /\
-  (instant s' <= instant e' ->
-     exists v, datetime_between c s e tz (Some num) den = Ok (v, tz) /\
-               dt_coded_lo s' <= v <= dt_coded_hi s' e').
-Proof. exact datetime_between_coded. Qed.
-Print Assumptions C11_datetime_between_as_coded.
-
-(* normalisation shifts the instant by exactly the offset the user wrote ... *)
-Theorem C11_normalisation_shifts_by_offset :
-  forall c sp ps s',
-  parse_datetimespec c sp = Ok ps -> datetime_fn c sp = Ok s' ->
-  instant s' = instant ps + match off ps with Some o => o * US | None => 0 end.
+(* normalisation keeps the instant the user wrote, for every specification (offsets included) *)
+Theorem C11_instants_preserved :
+  forall c sp ps, parse_datetimespec c sp = Ok ps ->
+  exists s', datetime_fn c sp = Ok s' /\ instant s' = instant ps /\ off s' = Some 0.
 Proof. exact datetime_fn_instant. Qed.
-Print Assumptions C11_normalisation_shifts_by_offset.
+Print Assumptions C11_instants_preserved.
 
-(* ... so the instant is preserved exactly for offset-free bounds *)
-Theorem C11_instants_partial :
-  forall c sp ps s',
-  parse_datetimespec c sp = Ok ps -> datetime_fn c sp = Ok s' -> offset_free ps ->
-  instant s' = instant ps.
-Proof. exact instants_preserved. Qed.
-Print Assumptions C11_instants_partial.
+(* THE PROPERTY at full strength: every pair of bounds (offsets, fractional seconds, equal
+   bounds, now/today), every draw, every presentation zone t: start <= v <= end as the
+   instants the user wrote; reversed bounds are a DataGenError for every draw and zone. *)
+Theorem C11_datetime_between_bounds :
+  forall c s e t num den ps pe,
+  parse_datetimespec c s = Ok ps -> parse_datetimespec c e = Ok pe -> 0 <= num < den ->
+  (instant pe < instant ps ->
+     forall tz d, exists m, datetime_between c s e tz d den = Err (DGE m)) /\
+  (instant ps <= instant pe ->
+     exists v o, datetime_between c s e (Some t) (Some num) den = Ok (v, o) /\
+                 instant ps <= v <= instant pe /\ (o = Some t \/ o = Some 0)).
+Proof. exact datetime_between_bounds. Qed.
+Print Assumptions C11_datetime_between_bounds.
 
-(* The property, where it holds: bounds without offsets, start on a whole second, end in a later
-   second: for every draw, start <= v <= end as the instants the user wrote. *)
-Theorem C11_datetime_between_bounds_partial :
-  forall c s e tz num den ps pe,
-  parse_datetimespec c s = Ok ps -> parse_datetimespec c e = Ok pe ->
-  offset_free ps -> offset_free pe ->
-  instant ps mod US = 0 ->
-  floor_sec (instant ps) < floor_sec (instant pe) ->
-  0 <= num < den ->
-  exists v, datetime_between c s e tz (Some num) den = Ok (v, tz) /\
-            instant ps <= v <= instant pe.
-Proof. exact datetime_between_bounds_partial. Qed.
-Print Assumptions C11_datetime_between_bounds_partial.
+(* independent of Faker: whatever value rc it returns, min(max(rc, start), end) is inside *)
+Theorem C11_clamp_any_draw :
+  forall rc lo hi tz, lo <= hi ->
+  lo <= fst (clamp rc lo hi tz) <= hi /\
+  (snd (clamp rc lo hi tz) = tz \/ snd (clamp rc lo hi tz) = Some 0).
+Proof. exact clamp_between. Qed.
+Print Assumptions C11_clamp_any_draw.
 
-(* KNOWN FINDING C11-K4: offsets are discarded.  start 2023-01-01T10:00:00-05:00 (= 15:00Z),
-   end 18:00Z: the lowest draw returns 10:00Z, before the start;
-   start 10:00+05:00 (= 05:00Z), end 06:00Z: a valid range is rejected. *)
-Theorem C11_refuted_offset :
+(* the clamp is not what produces the values: on whole-second starts with the end in a later
+   second the result is exactly Faker's draw *)
+Theorem C11_datetime_between_unclamped :
+  forall c s e t num den ps pe,
+  parse_datetimespec c s = Ok ps -> parse_datetimespec c e = Ok pe -> 0 <= num < den ->
+  instant ps mod US = 0 -> floor_sec (instant ps) < floor_sec (instant pe) ->
+  datetime_between c s e (Some t) (Some num) den =
+    Ok (faker_dt_between (floor_sec (instant ps)) (floor_sec (instant pe)) num den, Some t).
+Proof. exact datetime_between_unclamped. Qed.
+Print Assumptions C11_datetime_between_unclamped.
+
+(* KNOWN FINDING C11-K13 (introduced by d67b12a): with `timezone: False` every valid range fails,
+   for every draw (naive Faker result compared with aware bounds) *)
+Theorem C11_timezone_false_refuted :
+  (forall c s e num den ps pe,
+     parse_datetimespec c s = Ok ps -> parse_datetimespec c e = Ok pe -> 0 <= num < den ->
+     instant ps <= instant pe ->
+     datetime_between c s e None (Some num) den = Err (Internal "TypeError")) /\
+  (let c := mkClock 0 0 in
+   let s := mkStamp w_10h None in
+   let e := mkStamp (w_10h + 7200 * US) None in
+   instant s <= instant e /\
+   forall num, 0 <= num < 1024 ->
+     exists x, datetime_between c (SStamp s) (SStamp e) None (Some num) 1024 = Err x).
+Proof. split; [exact datetime_between_naive_fails | exact refuted_timezone_false]. Qed.
+Print Assumptions C11_timezone_false_refuted.
+
+(* regressions for the repaired defects: the old witnesses now satisfy the property *)
+Example C11_offset_regression :      (* K4: start 10:00-05:00 = 15:00Z, end 18:00Z *)
   (let c := mkClock 0 0 in
    let s := mkStamp w_10h (Some (-18000)) in
    let e := mkStamp (w_10h + 8 * 3600 * US) (Some 0) in
-   instant s <= instant e /\
-   exists v, datetime_between c (SStamp s) (SStamp e) (Some 0) (Some 0) 1024 = Ok (v, Some 0) /\
-             v < instant s) /\
-  (let c := mkClock 0 0 in
+   datetime_between c (SStamp s) (SStamp e) (Some 0) (Some 0) 1024 = Ok (instant s, Some 0) /\
+   datetime_between c (SStamp s) (SStamp e) (Some 0) (Some 1023) 1024
+     = Ok (instant e - 10546875, Some 0)) /\
+  (let c := mkClock 0 0 in            (* start 10:00+05:00 = 05:00Z, end 06:00Z: accepted *)
    let s := mkStamp w_10h (Some 18000) in
    let e := mkStamp (w_10h - 4 * 3600 * US) (Some 0) in
-   instant s <= instant e /\
-   forall d, exists m, datetime_between c (SStamp s) (SStamp e) (Some 0) d 1024 = Err (DGE m)).
-Proof. split; [exact refuted_offset | exact refuted_offset_rejects_valid_range]. Qed.
-Print Assumptions C11_refuted_offset.
+   datetime_between c (SStamp s) (SStamp e) (Some 0) (Some 512) 1024
+     = Ok (instant s + 1800 * US, Some 0)).
+Proof. split; [exact regression_offset | exact regression_offset_valid_range_accepted]. Qed.
+Print Assumptions C11_offset_regression.
 
-(* KNOWN FINDING C11-K10: equal bounds: the draw 1/2 gives a value after the end *)
-Theorem C11_refuted_equal_bounds :
+Example C11_equal_bounds_regression : (* K10 *)
   let c := mkClock 0 0 in
   let s := mkStamp w_10h None in
-  exists v, datetime_between c (SStamp s) (SStamp s) (Some 0) (Some 512) 1024 = Ok (v, Some 0) /\
-            instant s < v.
-Proof. exact refuted_equal_bounds. Qed.
-Print Assumptions C11_refuted_equal_bounds.
+  datetime_between c (SStamp s) (SStamp s) (Some 0) (Some 512) 1024 = Ok (instant s, Some 0).
+Proof. exact regression_equal_bounds. Qed.
+Print Assumptions C11_equal_bounds_regression.
 
-(* KNOWN FINDING C11-K11: start 10:00:00.9: the lowest draw gives 10:00:00.0 *)
-Theorem C11_refuted_subsecond_start :
+Example C11_subsecond_start_regression : (* K11: start 10:00:00.9 *)
   let c := mkClock 0 0 in
   let s := mkStamp (w_10h + 900000) None in
   let e := mkStamp (w_10h + 5 * US) None in
-  exists v, datetime_between c (SStamp s) (SStamp e) (Some 0) (Some 0) 1024 = Ok (v, Some 0) /\
-            v < instant s.
-Proof. exact refuted_subsecond_start. Qed.
-Print Assumptions C11_refuted_subsecond_start.
+  datetime_between c (SStamp s) (SStamp e) (Some 0) (Some 0) 1024 = Ok (instant s, Some 0).
+Proof. exact regression_subsecond_start. Qed.
+Print Assumptions C11_subsecond_start_regression.
 
 (* results of the date functions are accepted by the predicates used for free draws *)
 Theorem C11_between_possible_sound :
